@@ -179,6 +179,20 @@ theorem mem_due {s : State} {last now : Int} {r : Reg} :
   · rintro ⟨h1, ⟨h2, h3⟩, h4⟩; exact ⟨h1, h2, h3, h4⟩
   · rintro ⟨h1, h2, h3, h4⟩; exact ⟨h1, ⟨h2, h3⟩, h4⟩
 
+theorem timeTriggers_mem (s : State) (now number : Int) (t : Trigger) (h : t ∈ (timeTriggers s now number).2) :
+    t ∈ groupTime s ((due s (s.mark.getD 0) now).filter (fun r => shouldTrigger s r now number)) := by
+  unfold timeTriggers at h
+  cases hm : s.mark with
+  | none => simpa [hm] using h
+  | some m =>
+    simp only [hm] at h
+    by_cases hle : now ≤ m
+    · simp [hle] at h
+    · simpa [hle] using h
+
+theorem nodup_filter {α : Type} (p : α → Bool) {l : List α} (h : l.Nodup) : (l.filter p).Nodup :=
+  h.sublist filter_sublist
+
 /-! ### invariants through histories -/
 
 /-- primary key of `identity_registered_event` -/
